@@ -273,15 +273,15 @@ def new_function_rule(unit, gen, fails, undec):
             keep.append(x)
     return keep, undec
 
-def run_unit(prop, unit, pcfg, cache, usize=8, seed=None, want_canary=True, force_external=None, depth=0):
+def run_unit(prop, unit, pcfg, cache, usize=8, seed=None, want_canary=True, force_external=None, depth=0, target_endian='little'):
     """extract + verify one unit for one property; returns a UnitRun (raises Undecided/ExtractError)"""
     from concurrent.futures import ThreadPoolExecutor
     u = UnitRun()
     force = dict(force_external or {})
-    ex = Extractor(REPO, SPEC, unit, usize_bytes=usize, force_external=force)
+    ex = Extractor(REPO, SPEC, unit, usize_bytes=usize, force_external=force, target_endian=target_endian)
     gen = ex.build()
     unitcfg = ex.unit
-    tag = 'u_%s%s' % (unit, '' if usize == 8 else '_usize%d' % usize)
+    tag = 'u_%s%s%s' % (unit, '' if usize == 8 else '_usize%d' % usize, '' if target_endian == 'little' else '_be')
     gpath = os.path.join(GEN, tag + '.rs')
     open(gpath, 'w').write(gen.text)
     mods = modules_for(prop, gen, unitcfg, pcfg)
@@ -289,7 +289,7 @@ def run_unit(prop, unit, pcfg, cache, usize=8, seed=None, want_canary=True, forc
     rlimit = pcfg.get('rlimit', 30)
     genc = cpath = None
     if want_canary:
-        genc = Extractor(REPO, SPEC, unit, usize_bytes=usize, canary=True, force_external=force).build()
+        genc = Extractor(REPO, SPEC, unit, usize_bytes=usize, canary=True, force_external=force, target_endian=target_endian).build()
         cpath = os.path.join(GEN, tag + '_canary.rs')
         open(cpath, 'w').write(genc.text)
     def verify(path, g_, threads):
